@@ -74,7 +74,14 @@ async def query_request(request: Request) -> JSONResponse:
                 }
             )
 
-        rowtype = describe_as_rowtype(cur._describe_last_sql())  # noqa: SLF001
+        try:
+            rowtype = describe_as_rowtype(cur._describe_last_sql())  # noqa: SLF001
+        except Exception:
+            if cur._arrow_table:  # noqa: SLF001
+                raise
+            # statements that return no rows and can't be described (eg: USE, BEGIN, COMMIT, ROLLBACK)
+            # have succeeded, so answer with an empty result rather than HTTP 500
+            rowtype = []
 
         if cur._arrow_table:  # noqa: SLF001
             batch_bytes = to_ipc(to_sf(cur._arrow_table, rowtype))  # noqa: SLF001
